@@ -206,6 +206,20 @@ func wireRunVal(out *Out, c *wireCase, ws *wireSchema) {
 	}
 	out.Obs = string(b)
 	out.Nontrivial = len(orig.M) > 0
+	// the returned document belongs to the caller: a later call on the same codec (here: another message of the same
+	// type) must leave it alone
+	if !c.WfOnly {
+		first := string(b)
+		other := dynamicpb.NewMessage(ws.root)
+		if fd := ws.root.Fields().ByName("sib"); fd != nil && fd.Kind() == protoreflect.StringKind && !fd.IsList() {
+			other.Set(fd, protoreflect.ValueOfString("another message, long enough to overwrite the first document if its bytes are shared with it"))
+		}
+		_, _ = ws.codec.ProtoToJSON(other)
+		if string(b) != first {
+			out.V("C01|document-changed-by-later-call|"+slot, "the document returned for %s was %s; after encoding another message on the same codec the same byte slice reads %s", wxValString(&orig), wxClip(first), wxClip(string(b)))
+			return
+		}
+	}
 	real, dups, perr := wxStrictParse(b)
 	if perr != nil {
 		out.V("C08|malformed|"+slot, "encoder output is not well-formed JSON (%v): %s", perr, wxClip(string(b)))
